@@ -49,6 +49,20 @@ def step (st : St) (op : String) (args : List String) : Option (St × String) :=
     let h ← h.toNat?
     let (g, t) := generate st.gen h
     pure ({ st with gen := g }, s!"t{t}")
+  | "par", [h, n] => do
+    -- n concurrent issue + roll-back pairs for one hash: each call is atomic, so the result is that of n issues followed
+    -- by n roll-backs in some order; which order does not matter for the set of tokens available afterwards
+    let h ← h.toNat?; let n ← n.toNat?
+    if n < 2 ∨ n > 16 then none else
+    let (g1, ts) := (List.range n).foldl (fun (acc : Gen × List Nat) _ => let (g, t) := generate acc.1 h; (g, acc.2 ++ [t])) (st.gen, [])
+    let g2 := ts.foldl (fun g t => putBack g h t) g1
+    pure ({ st with gen := g2 }, "ok")
+  | "drain", [h, n] => do
+    let h ← h.toNat?; let n ← n.toNat?
+    if n < 1 ∨ n > 16 then none else
+    let (g1, ts) := (List.range n).foldl (fun (acc : Gen × List Nat) _ => let (g, t) := generate acc.1 h; (g, acc.2 ++ [t])) (st.gen, [])
+    let names := (ts.map fun t => s!"t{t}").mergeSort fun a b => decide (a ≤ b)
+    pure ({ st with gen := g1 }, ",".intercalate names)
   | "put", [h, t] => do
     let h ← h.toNat?; let t ← t.toNat?
     pure ({ st with gen := putBack st.gen h t }, "ok")
